@@ -31,6 +31,10 @@ type dataset struct {
 	SpanMs  int64    `json:"span_ms"`
 	Dense   bool     `json:"dense"`
 	Flushes int      `json:"flushes"`
+	// ingestion layout: the samples are written in Slices time slices with a flush after each but the last,
+	// and after the last one iff FinalFlush
+	Slices     int  `json:"slices"`
+	FinalFlush bool `json:"final_flush"`
 }
 
 var (
